@@ -435,3 +435,64 @@ def check_action_coverage(res: TlcResult, required, what):
     missing = [a for a in required if res.coverage.get(a, (0, 0))[1] == 0]
     if missing:
         raise ToolError(f"vacuous model run ({what}): actions never taken: {missing}")
+
+
+# ---------------------------------------------------------------------------------------------
+# batching: one JVM for many recorded files
+
+def concat_traces(items, out_path, drop_kinds=("atom", "aux")):
+    """items: list of (path, meta). Concatenates the ndjson files (dropping record kinds the API-level
+    specs ignore) into out_path and returns [(first_line, last_line, path, meta)] (1-based)."""
+    ranges, n = [], 0
+    with open(out_path, "w") as out:
+        for path, meta in items:
+            first = n + 1
+            with open(path) as f:
+                for line in f:
+                    line = line.strip()
+                    if not line:
+                        continue
+                    if drop_kinds:
+                        k = json.loads(line).get("k")
+                        if k in drop_kinds:
+                            continue
+                    out.write(line + "\n")
+                    n += 1
+            ranges.append((first, n, path, meta))
+    return ranges
+
+
+def locate(ranges, pos):
+    for first, last, path, meta in ranges:
+        if first <= pos <= last:
+            return path, meta, pos - first + 1
+    return None, None, pos
+
+
+class BatchValidator:
+    """Collects recorded files and validates them with ONE trace-specification run.
+    on_reject(meta, verdict, run_records, rel_pos) must call ctx.report(...)."""
+
+    def __init__(self, ctx, spec_dir, module, on_reject, libs=None, name=None):
+        self.ctx, self.spec_dir, self.module, self.on_reject, self.libs = ctx, spec_dir, module, on_reject, libs
+        self.items = []
+        self.name = name or module
+
+    def add(self, path, meta, executions=1):
+        self.items.append((path, (meta, executions)))
+
+    def run(self, timeout=2400):
+        if not self.items:
+            return True
+        allp = self.ctx.path("traces", f"all-{self.name}.ndjson")
+        ranges = concat_traces(self.items, allp)
+        v = tlc_trace(self.spec_dir, self.module, allp, timeout=timeout, libs=self.libs)
+        record_tlc(self.ctx, f"{self.module}[{len(self.items)} recorded files]", v.res)
+        if v.accepted:
+            self.ctx.traces_validated += sum(m[1] for _, m in self.items)
+            return True
+        _, meta, _ = locate(ranges, v.pos or 1)
+        recs = read_ndjson(allp)
+        run, rel = run_containing(recs, v.pos) if v.pos else (recs[:50], 0)
+        self.on_reject(meta[0] if meta else None, v, run, rel)
+        return False
